@@ -7,6 +7,8 @@ CONSTANTS
   DelAmts = {1, 333, 1000, 3001}
   MinSelf = 100
   MinSpec = 1000
+  MinSpecHigh = 2000
+  HighChains = {"c2"}
   Fixed = TRUE
   MaxOps = 16
   GenHist = TRUE
